@@ -894,12 +894,12 @@ func (s *Server) parseTemplate(ctx context.Context, uri protocol.DocumentURI, co
 		if errors.As(err, &posErr) {
 			diagnostic.Range = protocol.Range{
 				Start: protocol.Position{
-					Line:      uint32(posErr.Line),
-					Character: uint32(posErr.Column),
+					Line:      zeroBased(posErr.Line),
+					Character: zeroBased(posErr.Column),
 				},
 				End: protocol.Position{
-					Line:      uint32(posErr.Line),
-					Character: uint32(posErr.Column),
+					Line:      zeroBased(posErr.Line),
+					Character: zeroBased(posErr.Column),
 				},
 			}
 		}
@@ -925,6 +925,15 @@ func (s *Server) parseTemplate(ctx context.Context, uri protocol.DocumentURI, co
 		logger.Error().Err(err).Msg("unable to publish diagnostics")
 	}
 	return template, nil
+}
+
+// zeroBased converts a one-based line or column reported by the compiler into
+// the zero-based value used by the protocol.
+func zeroBased(n int) uint32 {
+	if n < 1 {
+		return 0
+	}
+	return uint32(n - 1)
 }
 
 var completionWithImport = regexp.MustCompile(`^.*\(from\s(".+")\)$`)
